@@ -3,6 +3,8 @@ import NimaVerif.Model.LayerSpec
 import NimaVerif.Lemmas.NodeEq
 /-! Helper lemmas for C14: alignment of `attrpath_order` with `values` under the mapping operations. -/
 namespace Nima
+-- name tokens are compared by spelling in this file (see `NameCmp` in Model/Edit.lean)
+attribute [local instance] NameCmp.spelled
 
 open Node EditM
 
